@@ -23,6 +23,15 @@ def run(ev, vd):
     m = tlc(os.path.join(fe.SP, "Determ.tla"), cfg="Determ_mutant.cfg", workers=8, timeout=900)
     if m.ok:
         raise ToolError("vacuity guard: Determ with IgnoreLoser=TRUE must violate Deterministic")
+    # the window computation at the end of a round: every thread must see the same counters (the configuration without the
+    # barrier is the outer round as it was before the repair in /repo)
+    r = tlc(os.path.join(fe.SP, "DetWindow.tla"), cfg=os.path.join(fe.SP, "DetWindow.cfg"), workers=4, timeout=600)
+    ev.add_tlc("DetWindow", r)
+    if not r.ok:
+        raise ToolError("DetWindow violates %s\n%s" % (r.violation, brief(r.out)))
+    m = tlc(os.path.join(fe.SP, "DetWindow.tla"), cfg=os.path.join(fe.SP, "DetWindow_nobarrier.cfg"), workers=4, timeout=600)
+    if m.ok or m.violation != "SameSums":
+        raise ToolError("vacuity guard: DetWindow without the barrier must violate SameSums, got %s" % m.violation)
     jobs = [("ctl", "C", None), ("ctl", "C", "2x2"), ("jitter", "C", None), ("free", "F", None), ("free", "F", "2x4")]
     alljobs = list(enumerate(jobs))
 
